@@ -7,9 +7,11 @@ CONSTANTS
   GenBias = TRUE
   FixRenew = TRUE
   PlanIdx = {"p1", "p2"}
-  Buyers = {"c", "b"}
   Durs = {1, 2, 12}
   WithRelay = TRUE
+  Consumers = {"c1"}
+  ThirdParty = {"b"}
+  WithDrain = FALSE
   PriceVar = {0, 1}
 INIT Init
 NEXT GenNext
